@@ -236,11 +236,21 @@ func main() {
 			class = "badlic/negative-length"
 		case 4:
 			inner := vlib.RandBytes(r, r.Intn(12))
-			if len(inner) > 0 && inner[0] > 60 {
-				inner[0] = byte(r.Intn(40)) // keep claimed lengths small: no large allocation
-			}
 			s = base64.RawURLEncoding.EncodeToString(snappy.Encode(nil, inner)) + vlib.Pick2(r, ":2", ":3")
 			class = "badlic/random-inner"
+			switch r.Intn(4) {
+			case 0: // the key announces more bytes than there are (up to 2^45)
+				inner = append([]byte{0x80, 0x80, 0x80, 0x80, byte(1 + r.Intn(100))}, vlib.RandBytes(r, r.Intn(6))...)
+				s = base64.RawURLEncoding.EncodeToString(snappy.Encode(nil, inner)) + vlib.Pick2(r, ":2", ":3")
+				class = "badlic/key-length-inflated"
+			case 1: // a short key, then a salt that announces more bytes than there are
+				inner = append([]byte{2, 7, 7, 0x80, 0x80, 0x80, 0x80, byte(1 + r.Intn(100))}, vlib.RandBytes(r, r.Intn(6))...)
+				s = base64.RawURLEncoding.EncodeToString(snappy.Encode(nil, inner)) + vlib.Pick2(r, ":2", ":3")
+				class = "badlic/salt-length-inflated"
+			case 2: // the compressed form announces a decoded length of 1 GiB
+				s = base64.RawURLEncoding.EncodeToString(append([]byte{0x80, 0x80, 0x80, 0x80, 0x04}, vlib.RandBytes(r, 4)...)) + vlib.Pick2(r, ":2", ":3")
+				class = "badlic/snappy-length-inflated"
+			}
 		default:
 			s = string(vlib.RandBytes(r, r.Intn(50)))
 			class = "badlic/random"
